@@ -352,6 +352,19 @@ func iterationMasks(h *ssa.BasicBlock, mask func(*ssa.BasicBlock) int) map[int][
 				continue
 			}
 			if s == h {
+				// a path that comes back only to leave (`more = false; continue`) is not an iteration
+				if len(h.Succs) == 2 {
+					nn := it.s.nd.step(i)
+					stays := false
+					for j, s2 := range h.Succs {
+						if body[s2] && nn.feasibleEdge(j) {
+							stays = true
+						}
+					}
+					if !stays {
+						continue
+					}
+				}
 				if _, ok := res[m]; !ok {
 					res[m] = append(append([]*ssa.BasicBlock{}, it.path...), h)
 				}
